@@ -8,7 +8,7 @@ ASSUMPTIONS = ['A1: one request at a time per subscription actor, in mailbox ord
 
 def obligations(ctx, cfg):
     q = cfg['tier'] == 'quick'
-    n, k = (3, 2) if q else (4, 3)
+    n, k = (3, 2) if q else (5, 3)
     return [TrackerRemove(ctx, n, k),
             StepAck(ctx, n, 2, k, 'ack-local', 'C02.b'),
             StepPull(ctx, 2, 2, 0, 'ack-local', 'C02.c-pull'),
